@@ -6,7 +6,7 @@ from checks import exec_common, exec_findings
 
 
 def run(ctx):
-    exec_common.run_property(ctx, "C09", ['reusable', 'reusable', 'resize_partial', 'reuse_kill'], 400, 4000, classify=exec_findings.classify)
+    exec_common.run_property(ctx, "C09", ['reusable', 'reusable', 'resize_partial', 'reuse_kill', 'resize_strict', 'resize_grow_crash'], 400, 4000, classify=exec_findings.classify)
 
 
 if __name__ == "__main__":
